@@ -4,6 +4,14 @@ Oracle: REF's independent analysis (nullable fixpoint + left-call graph + cycles
 detection clause and for the "rules on no cycle stay memoized" clause; a logical step budget (heart)
 plus an explicit recursion limit for the termination clause.  Workload: exhaustive small rule graphs
 and random larger ones, each parsed from every rule on a fixed battery.  DESIGN.md section 3/C16.
+
+Joins and gathers (`s%{e}`, `s%{e}+`, `s.{e}`, `s.{e}+`, `s<{e}+`, `s>{e}+`) are items of the rule graphs too, with separators
+and elements drawn from rule calls as well as tokens: an exhaustive 2-rule slice (one rule holds the join) and every third
+random graph.  REF reads a join by the documented expansion (s%{e}+ == e {s ~ e}; s%{e} == s%{e}+ | {}): the element's first
+calls are first calls of the join, the separator's only when the element can match empty, a non-positive join can match
+empty.  Graphs in which the separator of a join with an element that can match empty contributes a first call are counted
+(`join_corner_nullable_element`) and not judged; `join_sep_decisive` counts the judged graphs whose verdict depends on the
+separator of a join with a consuming element NOT being a first call.
 """
 from __future__ import annotations
 
@@ -13,31 +21,47 @@ import sys
 
 from .. import lang as L
 from ..common import h64
-from ..ref import left_recursive_rules, left_sccs
+from ..ref import left_calls, left_recursive_rules, left_sccs, nullable_map
 from ..refdiff import step_budget
 from ..tsu import StepHeart
 
 ID = 'C16'
 LEVEL = 'exploration'
 RULE = ('cases = rule graphs: exhaustive slice = every grammar of 1 rule (bodies: choices of <=2 sequences of <=2 items) and of 2 '
-        '(3 in the thorough tier) rules with small bodies, items from {call to each rule, \'x\', [\'x\'], {\'x\'}, {\'x\'}+}; random slice = graphs of '
-        '<=6 rules with longer sequences/choices, nested optionals and closures; each compiled with left recursion off (detection) '
-        'and on (flags), then parsed from every rule on the battery {"", x, xx, xxx, y, xy}; non-trivial = the graph has at least '
+        '(3 in the thorough tier) rules with small bodies, items from {call to each rule, \'x\', [\'x\'], {\'x\'}, {\'x\'}+, !\'y\'}; random slice = graphs of '
+        '<=6 rules with longer sequences/choices, nested optionals and closures; join slice = every 2-rule graph in which rule a is J or J <call> '
+        '(J = any of the six join/gather forms, separator in {call a, call b, \'y\'}, element in {call a, call b, \'x\'}) and rule b a body of <=2 items or '
+        'a choice of two items over {calls, \'x\', [\'x\']}, and every third random graph draws joins (separator/element = call, token, call token, '
+        'token | call token, [token] call) as items; each compiled with left recursion off (detection) '
+        'and on (flags), then parsed from every rule on the battery {"", x, xx, xxx, y, xy} (+ xyx when the graph has a join); non-trivial = the graph has at least '
         'one left-recursive cycle per the independent analysis; distinct by grammar text')
 ASSUMPTIONS = [
     'REF analysis: a rule is left recursive iff it reaches itself in the left-call graph (calls preceded only by nullable elements)',
     'the detection and termination clauses are decided only for grammars in which no call to a nullable rule sits in such a prefix (as the statement restricts); those are counted as "hidden" and only observed',
+    'a join is read by its documented expansion s%{e}+ == e {s ~ e}, s%{e} == s%{e}+ | {} (gathers and left/right joins differ only in the value): '
+    'first calls of the element always, of the separator only when the element can match empty; non-positive joins can match empty',
+    'graphs in which the separator of a join whose element can match empty contributes an edge of the left-call graph are counted and not judged '
+    '(TatSu\'s analysis never looks at separators; the element matches empty through a call to a nullable rule, the case the statement sets aside); '
+    'no join with a syntactically nullable element is generated',
+    'in a graph that is only observed (hidden), the battery stops after two unbounded parses',
     '"never recurses without bound" is decided by a rule-invocation budget far above the calibrated need and by RecursionError under a limit (3000) far above the bounded depth',
 ]
-EXHAUSTIVE = {'quick': 'all 1-rule graphs (bodies: choices of <=2 sequences of <=2 items) and all 2-rule graphs with bodies of <=2 items, items = calls, token, optional, closure, positive closure; battery of 6 inputs from every rule',
-              'thorough': 'all 1-rule graphs, all 2-rule graphs with bodies of <=3 items (93025), all 3-rule graphs with bodies of <=2 items sampled 1/4'}
+EXHAUSTIVE = {'quick': 'all 1-rule graphs (bodies: choices of <=2 sequences of <=2 items) and all 2-rule graphs with bodies of <=2 items, items = calls, token, optional, closure, positive closure, negative lookahead; all 5832 2-rule graphs of the join slice '
+                       '(6 join/gather forms x 3 separators x 3 elements x {J, J a, J b} for rule a, 36 small bodies for rule b); battery of 6 (7) inputs from every rule',
+              'thorough': 'all 1-rule graphs, all 2-rule graphs with bodies of <=3 items (625681), all 3-rule graphs with bodies of <=2 items sampled 1/4; the join slice in both orders of the two rules (11664)'}
 FLOORS = {
-    'quick': {'graphs': 5000, 'lrec_graphs': 2000, 'detected_ok': 1500, 'clean_ok': 700, 'parses': 60000,
+    'quick': {'graphs': 15000, 'lrec_graphs': 2000, 'detected_ok': 1500, 'clean_ok': 700, 'parses': 60000,
               'scc:self-loop': 500, 'scc:2-cycle': 200, 'flags_checked': 5000, 'lrec_graphs_with_generated_parser': 800,
-              'lrec_graphs_with_nomemo_or_nostak': 150},
-    'thorough': {'graphs': 150000, 'lrec_graphs': 50000, 'parses': 1500000},
+              'lrec_graphs_with_nomemo_or_nostak': 150,
+              'join_graphs': 5000, 'join_graphs_sep_with_call': 3500, 'join_graphs_element_with_call': 3500, 'join_judged': 4000,
+              'join_judged_clean': 1000, 'join_judged_lrec': 2500, 'join_sep_decisive': 800, 'join_sep_decisive_clean': 400,
+              'join_graphs:join': 900, 'join_graphs:join+': 900, 'join_graphs:gather': 900, 'join_graphs:gather+': 900,
+              'join_graphs:ljoin+': 900, 'join_graphs:rjoin+': 900},
+    'thorough': {'graphs': 150000, 'lrec_graphs': 50000, 'parses': 1500000, 'join_graphs': 20000, 'join_judged': 15000,
+                 'join_sep_decisive': 3000, 'join_sep_decisive_clean': 1000},
 }
 PEAK_COUNTERS = ('max_steps_ratio_x100',)
+SHARD_TIMEOUT = {'quick': 2400, 'thorough': 7200}   # watchdog only (a shard needs ~50 s of CPU; the machine may be shared 10x over)
 BATTERY = ['', 'x', 'xx', 'xxx', 'y', 'xy']
 NAMES = ['a', 'b', 'c', 'd', 'e', 'f']
 
@@ -63,6 +87,39 @@ def bodies(n, max_items):
     return out
 
 
+# ---- joins and gathers as items (documented expansion: s%{e}+ == e {s ~ e}, s%{e} == s%{e}+ | {}; gathers and the
+# left/right joins differ only in the value built).  (positive, gather, assoc) as lang.Join takes them.
+JKINDS = {'join': (False, False, ''), 'join+': (True, False, ''), 'gather': (False, True, ''), 'gather+': (True, True, ''),
+          'ljoin+': (True, False, 'left'), 'rjoin+': (True, False, 'right')}
+JKIND_OF = {v: k for k, v in JKINDS.items()}
+BATTERY_J = BATTERY + ['xyx']   # graphs with a join: one input with the token separator between two elements
+
+
+def mk_join(kind, sep, e):
+    return L.Join(sep, e, *JKINDS[kind])
+
+
+def join_bodies(n):
+    """bodies of the rule that holds the join in the exhaustive join slice: J, J <call> with J over every kind,
+    separator in {call to each rule, 'y'}, element in {call to each rule, 'x'}"""
+    calls = [L.Call(NAMES[i]) for i in range(n)]
+    out = []
+    for kind in JKINDS:
+        for sep in calls + [L.Tok('y')]:
+            for el in calls + [L.Tok('x')]:
+                j = mk_join(kind, sep, el)
+                out.append(((j,),))
+                for c in calls:
+                    out.append(((j, c),))   # what follows a join is a first call iff the join can match empty
+    return out
+
+
+def partner_bodies(n):
+    """bodies of the other rule in the exhaustive join slice: <=2 items, or a choice of two items, over {calls, 'x', ['x']}"""
+    it = [L.Call(NAMES[i]) for i in range(n)] + [L.Tok('x'), L.Opt(L.Tok('x'))]
+    return [((i,),) for i in it] + [((i, j),) for i in it for j in it] + [((i,), (j,)) for i in it for j in it]
+
+
 def mk_body(b):
     opts = [s[0] if len(s) == 1 else L.Seq(tuple(s)) for s in b]
     return opts[0] if len(opts) == 1 else L.Choice(tuple(opts))
@@ -79,6 +136,14 @@ def exhaustive(tier):
         for y in b2:
             yield idx, L.Grammar([L.Rule('a', mk_body(x)), L.Rule('b', mk_body(y))])
             idx += 1
+    # join slice: rule a holds a join or gather, rule b is a small plain body (thorough: also the other order of the rules)
+    for x in join_bodies(2):
+        for y in partner_bodies(2):
+            yield idx, L.Grammar([L.Rule('a', mk_body(x)), L.Rule('b', mk_body(y))])
+            idx += 1
+            if tier == 'thorough':
+                yield idx, L.Grammar([L.Rule('b', mk_body(y)), L.Rule('a', mk_body(x))])
+                idx += 1
     if tier == 'thorough':
         b3 = bodies(3, 2)
         for x in b3:
@@ -89,13 +154,45 @@ def exhaustive(tier):
                     idx += 1
 
 
-def random_graph(rng):
+def random_graph(rng, joins=False):
     n = rng.choice([3, 4, 5, 6])
     names = NAMES[:n]
     perm = names[:]
     rng.shuffle(perm)  # leader selection depends on names: permute
 
+    def join():
+        # separators and elements from calls as well as tokens; no element that is syntactically able to match empty
+        # (an element that matches empty through the rule it calls is possible: see join_corner in check_graph)
+        c = lambda: L.Call(rng.choice(perm))  # noqa: E731
+        r = rng.random()
+        if r < 0.45:
+            sep = c()
+        elif r < 0.60:
+            sep = L.Tok('y')
+        elif r < 0.75:
+            sep = L.Seq((c(), L.Tok('y')))
+        elif r < 0.90:
+            sep = L.Choice((L.Tok('y'), L.Seq((c(), L.Tok('x')))))
+        else:
+            sep = L.Seq((L.Opt(L.Tok('y')), c()))
+        r = rng.random()
+        if r < 0.35:
+            el = L.Tok('x')
+        elif r < 0.70:
+            el = c()
+        elif r < 0.85:
+            el = L.Seq((c(), L.Tok('x')))
+        else:
+            el = L.Seq((L.Tok('x'), c()))
+        kind = rng.choice(['join', 'join', 'join+', 'gather', 'gather', 'gather+', 'ljoin+', 'rjoin+'])
+        j = mk_join(kind, sep, el)
+        if not JKINDS[kind][0] and rng.random() < 0.5:
+            return L.Seq((j, L.Tok('y')))   # a closing token keeps the rule from matching empty (as in `s%{e} ']'`)
+        return j
+
     def item(depth):
+        if joins and rng.random() < 0.15:
+            return join()
         r = rng.random()
         if r < 0.45:
             return L.Call(rng.choice(perm))
@@ -186,12 +283,66 @@ def no_common_rule(sccs, graph):
     return False
 
 
+def _map(e, f):
+    kids = [_map(k, f) for k in L.children(e)]
+    return f(L.rebuild(e, kids) if kids else e)
+
+
+def join_readings(g, lrec, graph):
+    """(joins, corner, decisive) for a graph with joins/gathers, else None.
+
+    corner: some join whose ELEMENT can match empty has a separator whose first calls change the left-call graph.  By the
+    documented expansion the separator is then parsed where the join started, so REF counts those calls; TatSu's analysis
+    does not look at separators at all.  The statement's restriction (no call to a rule that can match empty in such a
+    prefix) covers most of these graphs; they are counted and not judged.
+    decisive: the graph's verdict depends on NOT counting the separator of a join whose element consumes input (an
+    analysis that took the separator's calls as first calls would find another set of left-recursive rules)."""
+    joins = [e for r in g.rules for e in L.walk(r.body) if isinstance(e, L.Join)]
+    if not joins:
+        return None
+    nul, n = nullable_map(g)
+
+    def no_sep(e):
+        return L.Join(L.Tok('y'), e.e, e.positive, e.gather, e.assoc) if isinstance(e, L.Join) and n(e.e) else e
+
+    def sep_first(e):
+        return L.Seq((L.LA(e.sep), e)) if isinstance(e, L.Join) and not n(e.e) else e
+    g1 = L.Grammar([L.Rule(r.name, _map(r.body, no_sep), r.decorators) for r in g.rules])
+    corner = left_calls(g1)[0] != graph
+    g2 = L.Grammar([L.Rule(r.name, _map(r.body, sep_first), r.decorators) for r in g.rules])
+    decisive = left_recursive_rules(g2)[0] != lrec
+    return joins, corner, decisive
+
+
 def check_graph(acc, g, origin):
     from tatsu.exceptions import FailedParse, GrammarError
     lrec, graph, hidden, nul = left_recursive_rules(g)
     sccs = left_sccs(g)
     acc.count('graphs')
     text = L.grammar_text(g)
+    jr = join_readings(g, lrec, graph)
+    battery = BATTERY
+    if jr:
+        joins, corner, decisive = jr
+        battery = BATTERY_J
+        acc.count('join_graphs')
+        for k in {JKIND_OF[(j.positive, j.gather, j.assoc)] for j in joins}:
+            acc.count('join_graphs:' + k)
+        if any(isinstance(x, L.Call) for j in joins for x in L.walk(j.sep)):
+            acc.count('join_graphs_sep_with_call')
+        if any(isinstance(x, L.Call) for j in joins for x in L.walk(j.e)):
+            acc.count('join_graphs_element_with_call')
+        if corner:
+            # not judged (as `hidden`): the separator of a join whose element can match empty starts a cycle or an edge
+            acc.count('join_corner_nullable_element')
+            hidden = True
+        elif not hidden:
+            acc.count('join_judged')
+            acc.count('join_judged_lrec' if lrec else 'join_judged_clean')
+            if decisive:
+                acc.count('join_sep_decisive')
+                if not lrec:
+                    acc.count('join_sep_decisive_clean')
     if lrec:
         acc.count('lrec_graphs')
         acc.nontriv(text)
@@ -254,9 +405,10 @@ def check_graph(acc, g, origin):
                 acc.count('lrec_graphs_with_nomemo_or_nostak')
         except Exception as e:  # noqa: BLE001
             acc.violation(f'codegen/exc:{type(e).__name__}', f'generating the parser raised {type(e).__name__}: {e} for {text!r}', w)
+    unobserved_unbounded = 0
     for backend, parse in backends:
       for start in [r.name for r in g.rules]:
-        for t in BATTERY:
+        for t in battery:
             heart = StepHeart(step_budget(g, t))
             out = 'ok'
             try:
@@ -274,6 +426,12 @@ def check_graph(acc, g, origin):
                 continue
             if hidden:
                 acc.count('hidden_unbounded')
+                unobserved_unbounded += 1
+                if unobserved_unbounded >= 2:
+                    # outside the statement and only observed: two such parses per graph are recorded, the rest of the
+                    # battery would repeat them at the price of a full recursion limit / step budget each
+                    acc.count('hidden_battery_cut')
+                    return
                 continue
             ww = dict(w, start=start, text=t, outcome=out)
             if out in ('RecursionError', 'StepBudget'):
@@ -300,7 +458,7 @@ def run_shard(desc, acc):
     else:
         for i in range(desc['n']):
             rng = random.Random(h64('C16', desc['seed'], desc['shard'], i))
-            g = random_graph(rng)
+            g = random_graph(rng, joins=(i % 3 == 0))   # every third random graph draws joins/gathers as items too
             check_graph(acc, g, {'mode': 'random', 'shard': desc['shard'], 'i': i})
             if i == 0:
                 acc.sample({'grammar': L.grammar_text(g), 'battery': BATTERY})
@@ -316,6 +474,7 @@ MANIFEST = {
     'level_text': 'every small rule graph (exhaustive up to the stated bounds) and seeded larger ones are compiled by the real code with left recursion off '
                   '(GrammarError iff the independent analysis finds a cycle) and on (is_lrec/is_memo of non-cyclic rules), and parsed from every rule on a '
                   'battery under a logical step budget and recursion limit',
-    'level_note': 'trusted: vt/ref.py nullable/left-call analysis; grammars with a nullable rule call in a left prefix are outside the statement and only counted; '
+    'level_note': 'trusted: vt/ref.py nullable/left-call analysis (joins and gathers by their documented expansion); grammars with a nullable rule call in a left prefix '
+                  '(or in the element of a join whose separator would then start at the same position) are outside the statement and only counted; '
                   'termination is the bounded restatement (budget, depth), not a proof',
 }
